@@ -40,6 +40,13 @@ impl FixtureDatabase {
             debug!("Failed to read imported module {:?}", module_path);
             return false;
         };
+        if self.open_documents.contains_key(module_path) {
+            // Open in the editor, yet nothing is indexed for it: its buffer does not parse.
+            // The text in the cache is the editor's, not another thread's claim; the file on
+            // disk is the module's last valid version and is indexed as such.
+            self.analyze_file_from_disk(module_path.to_path_buf(), &content, false);
+            return true;
+        }
         match self.file_cache.entry(module_path.to_path_buf()) {
             dashmap::mapref::entry::Entry::Occupied(_) => return false,
             dashmap::mapref::entry::Entry::Vacant(vacant) => {
